@@ -47,3 +47,37 @@
             // ... and, whatever the outcome, the deletion has been attempted
             self.pl().w_delete_called(crate::polling::fd_raw(&fd)),
 //@ enditem
+//@ if poll_reg_real
+//@ item src/sys.rs / impl Poll / fn new_inner props=C05,C02,C12 ret=r
+//@ else
+//@ item src/sys.rs / impl Poll / fn new_inner props=C05,C02,C12 sigonly ret=r
+//@ endif
+//@ spec
+        ensures
+            r matches Ok(p) ==> {
+                // C05: a fresh loop has no armed timer (nothing can fire that was never armed)
+                &&& crate::ext::refcell_init(&*p.timers).is_fresh()
+                // C12/C02: the event buffer the first wait appends to starts empty
+                &&& crate::ext::refcell_init(&p.events).is_clear()
+                // C02: level-triggered registrations are emulated (one-shot + re-arm table) exactly when the platform's poller
+                // has no level mode -- or when the fallback is forced (tests)
+                &&& (p.level_triggered is None <==> (p.pl().spec_supports_level() && !force_fallback_lt))
+            },
+//@ enditem
+//@ if poll_reg_real
+//@ item src/sys.rs / impl Poll / fn new props=C05,C02,C12 ret=r
+//@ else
+//@ item src/sys.rs / impl Poll / fn new props=C05,C02,C12 sigonly ret=r
+//@ endif
+//@ spec
+        ensures
+            // the loop's Poll never forces the emulation
+            r matches Ok(p) ==> crate::ext::refcell_init(&*p.timers).is_fresh() && crate::ext::refcell_init(&p.events).is_clear()
+                && (p.level_triggered is None <==> p.pl().spec_supports_level()),
+//@ enditem
+//@ item src/sys.rs / impl Poll / fn notifier props=C11 ret=r
+//@ spec
+        ensures
+            // C11: the wake-up handle notifies the very poller this Poll waits on
+            r.pl() == self.pl(),
+//@ enditem
